@@ -360,7 +360,7 @@ class WcRegexp(util.Immutable, Generic[AnyStr]):
         matches = [
             filename
             for filename in filenames
-            if _Match(
+            if filename and _Match(
                 os.fspath(filename),
                 self._include,
                 self._exclude,
